@@ -80,8 +80,8 @@ pub fn run_pipeline(mods: &Mods, entry: &[String], with_ts: bool) -> Pipeline {
     CompileOutcome::Ok(c) => {
       let wasm_valid = validate_wasm(&c.wasm);
       let r = with_node(|node| {
-        let w = node.run_wasm(&c.wasm, &c.loader, &c.main, Duration::from_secs(20));
-        let t = if with_ts { Some(node.run_ts(&c.ts_code, Duration::from_secs(20))) } else { None };
+        let w = node.run_wasm(&c.wasm, &c.loader, &c.main, Duration::from_secs(run_timeout_s()));
+        let t = if with_ts { Some(node.run_ts(&c.ts_code, Duration::from_secs(run_timeout_s()))) } else { None };
         (w, t)
       });
       match r {
@@ -140,4 +140,9 @@ pub fn first_diff(a: &[String], b: &[String]) -> String {
     }
   }
   "equal".into()
+}
+
+/// wall-clock safety net per execution; expiry is "inconclusive", never a verdict
+pub fn run_timeout_s() -> u64 {
+  std::env::var("VERIF_RUN_TIMEOUT_S").ok().and_then(|s| s.parse().ok()).unwrap_or(5)
 }
